@@ -14,17 +14,20 @@ CLAIMED = {
                 'is an input of the model; methods return JSON values; RecursionError (nesting far beyond 64) excluded by hypothesis.'),
     'C02': dict(ref='§4 C02', text='Lean theorems: call answered once with the identical id (ReqId keeps JSON type), notification silent on every path, '
                 'C02_batch_is_map (accepted batch = collectReplies of single dispatches, logs concatenated), rejected batch executes nothing, exactly-once executions. '
-                'Tied by the dispatch suite incl. element-wise re-dispatch on the real dispatchers.',
+                'Tied by the dispatch suite incl. element-wise re-dispatch on the real dispatchers (sync, async, async serving plain functions, async with concurrent_batch off) '
+                'and by the scheduler suite (request order of the ids and exactly-once, completed executions under every interleaving; theorems C10_order_and_identity, C10_async_batch_equals_sync, C10_exactly_once).',
                 note='Kernel + standard axioms; id-preserving middleware premise (explicit, decidable, shown necessary by C01_illbehaved_counterexample); hand-written model tied by correspondence.'),
     'C03': dict(ref='§4 C03', text='Lean theorems: -32700 / -32600 (id null, nothing runs) / -32601 / -32602 without execution / protocol errors verbatim for every code, message, data (absent vs null) / '
                 'other exceptions → {-32000, "Server error"} independent of the exception; error codes tied to the source by the constants translator. '
-                'Correspondence over codes x messages x data shapes x exception types, as call / notification / batch element.',
+                'Correspondence over codes x messages x data shapes x exception types (incl. the library\'s own non-protocol exceptions), as call / notification / batch element; '
+                'the validation clause (-32602 without running) also through the validators suite (real jsonschema / pydantic validators).',
                 note='Kernel + standard axioms; statements are for the library without user error handlers on the code in question (handlers are C12); '
                 'the loader accepting NaN/Infinity (D20) is a recorded finding decided by the oracle.'),
     'C07': dict(ref='§4 C07', text='Lean theorems: every notation emits exactly one well-formed request document (ids present for calls, absent for notifications, arguments as given); '
                 'emitted batch documents have pairwise distinct call ids for every id generator, and sequential with step != 0 is never refused; loop-back through the library\'s own dispatcher: '
                 'C07_loopback_value / C07_loopback_error (same code, message, data; class registered for the code else the client\'s base) / notifications and all-notification batches silent; notations interchangeable. '
-                'Tied by real sync and async clients in every notation x id generators x strict on/off, looped back into real sync and async dispatchers, compared with the model end to end.',
+                'Tied by real sync and async clients in every notation x id generators (increasing, decreasing, random) x strict on/off, looped back into real sync and async dispatchers '
+                '(coroutines and plain functions), compared with the model end to end; notified methods run to completion under every interleaving (scheduler suite, C10_exactly_once).',
                 note='Kernel + standard axioms; composition of the C05 round-trip theorems, the dispatcher theorems (C02, C12) and the client model; generators.uuid (D7) is a recorded finding.'),
     'C08': dict(ref='§4 C08', text='Lean theorems: single responses — id mismatch rejected in strict mode, otherwise related; C08_batch_accept_iff (strict: accepted iff the non-null response ids are exactly the call ids, '
                 'duplicate-free by the strict BatchResponse), C08_positional_attribution (after acceptance the id-carrying responses are in call order whatever the server\'s order), bad bodies raise the deserialisation error, '
